@@ -20,11 +20,16 @@ PROP = dict(
          "through the captured channel) equals the rendering computed in Rust from the generated value and mutations. "
          "Plus (quick 120 / thorough 1500) aliasing and cyclic captures in 6 shapes (one array under two variables; under two "
          "fields of one struct; as a capture and as a field of another capture; a struct whose array field contains it; a "
-         "two-node cycle; one Box twice in an array): the task mutates through one alias and observes through the other, so does "
+         "two-node cycle; one Box twice in an array; cycles ROOTED AT AN ARRAY: array->struct->same array, array->variant->same "
+         "array, array->array->variant->first array; a variant-rooted cycle; arrays that are EMPTY at the spawn - directly, in a "
+         "struct, a tuple, an enum payload, the environment of two closures, or popped down to nothing - and grown on both sides "
+         "afterwards): the task mutates through one alias and observes through the other, so does "
          "the spawner on its originals. Model cases: `heapcopy <value>` - Lean deepCopy renders the copy as the task saw it and "
          "owns all of it - and `heapalias <captures with labels> | <ops>` - spawnCopy (one map), the same mutations and "
          "observations, every printed line; distinct = distinct values; non-trivial = the value contains a heap object",
     nontrivial=lambda req, imp: "(" in req or "'" in req or "&" in req,
+    # every program runs in a child process (batches of 8, re-run one by one when a child dies), so a defect that
+    # aborts the host is reported with the program that triggered it
     trusted_base=COMMON_TB + [
         "Rust Box/raw pointers: an object allocated by a thread stays readable and unchanged until that thread is dropped or stores into it (heap model Abra.Heap); garbage collection is C06",
         "the Abra `show_*` functions of the harness (string concatenation, match, for) render the value faithfully",
